@@ -80,12 +80,29 @@ def _shape(spans):
     return json.dumps(rec(roots[0]))
 
 
+SPECIAL_BASE = 100_000   # data set indices >= SPECIAL_BASE: special names
+
+
 def gen_dataset(prop: str, idx: int) -> dict:
     rng = random.Random(core.derive(DATA_SALT, prop, idx))
     n_wf = rng.choice([1, 2, 2, 3])
     wf_names = ["WFa", "WF b", "WFc"][:n_wf]
     if rng.random() < 0.5:
         wf_names = [w.replace(" ", "") for w in wf_names]
+    if idx >= SPECIAL_BASE:
+        # workflow names with characters that are special to globbing,
+        # regular expressions, file systems or text encodings, next to a
+        # sibling name such a pattern would match (all legal file names, no
+        # two collide after the tool's own ' ' -> '_' file naming)
+        n_wf = rng.choice([2, 3, 3])
+        wf_names = rng.choice([
+            ["svc[a]", "svca", "svc"], ["checkout [v2]", "checkout v",
+                                        "checkout 2"],
+            ["q?", "qx", "q"], ["w*", "wx", "w.x"], ["a.b", "a-b", "aXb"],
+            ["\u00dcn\u00ef c\u00f8d\u00e9", "Uni code", "unicode"],
+            ["job (1)", "job 1", "job+1"], ["x{y}", "xy", "x,y"],
+            ["50%", "50", "%s"], ["it's", "its", "its!"]])[:n_wf]
+        rng.shuffle(wf_names)
     async_flag = rng.random() < 0.5
     templates = [_template(rng, i, rich=True) for i in range(n_wf)]
     traces = []          # {id, wf, kind, spans}
@@ -925,12 +942,219 @@ def _child_c15(unit: dict) -> dict:
         shutil.rmtree(tmp, ignore_errors=True)
 
 
+# ---------------------------------------------------------------------------
+# C04 over the otel2puml route: a history of otel2puml -om / -im runs, each
+# on one chunk of the traces, several workflows (job names) per run
+# ---------------------------------------------------------------------------
+def chunk_files(ds: dict, assign: dict, n: int) -> list[list[dict]]:
+    """The OTel JSON files of a data set restricted to the traces of chunk
+    c (every trace lies wholly inside one chunk; file and group structure,
+    duplicates and mislabelled spans are kept)."""
+    out: list[list[dict]] = [[] for _ in range(n)]
+    for f in ds["files"]:
+        for c in range(n):
+            rs = []
+            for g in f["doc"]["resource_spans"]:
+                scopes = []
+                for sc in g["scope_spans"]:
+                    sp = [s for s in sc["spans"]
+                          if assign.get(s["trace_id"]) == c]
+                    if sp:
+                        scopes.append({"scope": sc["scope"], "spans": sp})
+                if scopes:
+                    rs.append({"resource": g["resource"],
+                               "scope_spans": scopes})
+            if rs:
+                out[c].append({"name": f["name"],
+                               "doc": {"resource_spans": rs}})
+    return out
+
+
+def c04o_assignment(ds: dict, n: int, seed: int, biased: bool) -> dict:
+    """trace id -> chunk.  Biased: one workflow's traces all go to the first
+    chunk (its model is loaded later with no new evidence at all) when there
+    are several workflows; otherwise a seeded spread with no empty chunk."""
+    r = random.Random(seed)
+    tids = sorted(ds["traces"])
+    assign = {t: r.randrange(n) for t in tids}
+    wfs = sorted({v["wf"] for v in ds["traces"].values()})
+    if biased and len(wfs) > 1:
+        w0 = r.choice(wfs)
+        for t in tids:
+            if ds["traces"][t]["wf"] == w0:
+                assign[t] = 0
+    for c in range(n):
+        if c not in assign.values():
+            cands = [t for t in tids
+                     if list(assign.values()).count(assign[t]) > 1]
+            if cands:
+                assign[r.choice(cands)] = c
+    return assign
+
+
+def _child_c04o(unit: dict) -> dict:
+    from . import world_learner_ext as wle
+
+    core.silence_child_output()
+    ds = unit.get("dataset") or gen_dataset("C04o", unit["idx"])
+    ds = dict(ds, time_buffer=0)
+    n = unit["n_chunks"]
+    assign = unit.get("assign") or c04o_assignment(
+        ds, n, unit["chunk_seed"], unit.get("biased", False))
+    rec: dict = {"id": ds["id"], "errs": [], "faults": ds["faults"],
+                 "workflows": ds["workflows"], "n_chunks": n,
+                 "assign": assign, "n_traces": len(ds["traces"]),
+                 "same_out": unit["same_out"], "same_db": unit["same_db"],
+                 "batch_size": ds["batch_size"],
+                 "async": bool(ds["sequencer"].get("async_flag"))}
+    tmp = tempfile.mkdtemp(prefix="verif-c04o-", dir=SHM)
+    useed = unit.get("uuid_seed", 1)
+    r = random.Random(unit["chunk_seed"] + 17)
+    try:
+        paths = write_inputs(ds, tmp)
+        cfg = write_config(ds, tmp, paths["data"],
+                           os.path.join(tmp, "ref.db"), "ref")
+        out_ref = os.path.join(tmp, "outRef")
+        a = otel_args("otel2puml", cfg, out_ref)
+        a["output_puml_models"] = True
+        ref = run_cli({"uuid_seed": useed, "fs_seed": useed + 1, "args": a})
+        rec["ref_status"] = ref["status"]
+        procs = [["otel2puml -om (all traces)", ref["status"]]]
+        sim_ns = ref.get("sim_ns", 0) or 0
+        fs_perm = ref.get("fs_permuted", 0) or 0
+        steps = []
+        latest_model: dict = {}      # model file name -> path
+        latest_puml: dict = {}
+        loaded_without_data = 0
+        chunks = chunk_files(ds, assign, n)
+        for j in range(n):
+            droot = os.path.join(tmp, f"chunk{j}")
+            os.makedirs(os.path.join(droot, "data"))
+            for f in chunks[j]:
+                with open(os.path.join(droot, "data", f["name"]), "w") as fh:
+                    json.dump(f["doc"], fh)
+            db = os.path.join(tmp, "steps.db" if unit["same_db"]
+                              else f"step{j}.db")
+            cfg_j = write_config(ds, droot, os.path.join(droot, "data"), db,
+                                 f"s{j}")
+            out_j = os.path.join(tmp, "outS" if unit["same_out"]
+                                 else f"outS{j}")
+            a = otel_args("otel2puml", cfg_j, out_j)
+            models = sorted(latest_model.values())
+            r.shuffle(models)
+            a["input_puml_models"] = models
+            a["output_puml_models"] = True
+            before = {}
+            if os.path.isdir(out_j):
+                before = {fn: core.digest(open(os.path.join(out_j, fn)).read())
+                          for fn in os.listdir(out_j)}
+            st = run_cli({"uuid_seed": useed + 10 * (j + 1),
+                          "fs_seed": useed + 10 * (j + 1) + 1, "args": a})
+            steps.append(st["status"])
+            procs.append([f"restart; otel2puml chunk{j} -im x{len(models)} "
+                          f"-om", st["status"]])
+            sim_ns += st.get("sim_ns", 0) or 0
+            fs_perm += st.get("fs_permuted", 0) or 0
+            if st["status"] != "ok":
+                break
+            written = set()
+            for fn in sorted(os.listdir(out_j)):
+                pth = os.path.join(out_j, fn)
+                if not os.path.isfile(pth):
+                    continue
+                if fn.endswith("_model.json"):
+                    latest_model[fn] = pth
+                elif fn.endswith(".puml"):
+                    latest_puml[fn] = pth
+                if before.get(fn) != core.digest(open(pth).read()):
+                    written.add(fn)
+            loaded_without_data += sum(
+                1 for m in models
+                if os.path.basename(m).replace("_model.json", ".puml")
+                not in written and not unit["same_out"])
+        rec["step_status"] = steps
+        rec["processes"] = procs
+        rec["sim_ns"] = sim_ns
+        rec["fs_permuted"] = fs_perm
+        rec["models_loaded_without_new_data"] = loaded_without_data
+        for name, stt in [("ref", ref["status"])] + [
+                (f"step{j}", s) for j, s in enumerate(steps)]:
+            if stt.startswith("harness"):
+                rec["errs"].append(["harness", f"{name}: {stt}"])
+        if any(e[0] == "harness" for e in rec["errs"]):
+            rec["status"] = "ok"
+            return rec
+        if ref["status"] != "ok":
+            # the one-shot run itself fails: nothing to compare with
+            rec["status"] = "ok"
+            rec["undecided"] = 1
+            return rec
+        if any(s != "ok" for s in steps):
+            rec["errs"].append(["chunk-run-fails",
+                                f"one-shot ok, steps {steps}"])
+            rec["status"] = "ok"
+            return rec
+        ref_pumls = {fn: open(os.path.join(out_ref, fn)).read()
+                     for fn in sorted(os.listdir(out_ref))
+                     if fn.endswith(".puml")}
+        ref_models = {fn: os.path.join(out_ref, fn)
+                      for fn in sorted(os.listdir(out_ref))
+                      if fn.endswith("_model.json")}
+        rec["pumls"] = sorted(ref_pumls)
+        if sorted(latest_puml) != sorted(ref_pumls):
+            rec["errs"].append(["workflow-set", f"one-shot {sorted(ref_pumls)}"
+                                f" chunked {sorted(latest_puml)}"])
+        if sorted(latest_model) != sorted(ref_models):
+            rec["errs"].append(["model-set", f"one-shot {sorted(ref_models)}"
+                                f" chunked {sorted(latest_model)}"])
+        rec["gates"] = 0
+        cmp: dict = {}
+        for fn in sorted(set(ref_pumls) & set(latest_puml)):
+            a_ = analyse_puml(ref_pumls[fn])
+            b_ = analyse_puml(open(latest_puml[fn]).read())
+            rec["gates"] += a_.get("gates", 0)
+            cmp[fn] = [a_, b_]
+            if a_.get("parse") != "ok" or b_.get("parse") != "ok":
+                if a_.get("parse") != b_.get("parse"):
+                    rec["errs"].append(["diagram-differs", f"{fn}: one-shot "
+                                        f"{a_.get('parse')} chunked "
+                                        f"{b_.get('parse')}"])
+                continue
+            if a_["names"] != b_["names"]:
+                rec["errs"].append(["diagram-names-differ",
+                                    f"{fn}: one-shot {a_['names']} chunked "
+                                    f"{b_['names']}"])
+            elif a_["lang"] is None or b_["lang"] is None:
+                rec["undecided"] = rec.get("undecided", 0) + 1
+            elif a_["lang"] != b_["lang"]:
+                rec["errs"].append(["diagram-language-differs", fn])
+        for fn in sorted(set(ref_models) & set(latest_model)):
+            ma = wle.model_canon_from_file(ref_models[fn])
+            mb = wle.model_canon_from_file(latest_model[fn])
+            if ma != mb:
+                diff = [et for et in sorted(set(ma["events"])
+                                            | set(mb["events"]))
+                        if ma["events"].get(et) != mb["events"].get(et)]
+                rec["errs"].append(["model-differs",
+                                    f"{fn}: job name {ma['job_name']!r} / "
+                                    f"{mb['job_name']!r}, event types that "
+                                    f"differ {diff[:6]}"])
+        rec["log_digest"] = core.digest(
+            {"steps": steps, "cmp": cmp,
+             "models": {fn: wle.model_canon_from_file(p)
+                        for fn, p in sorted(latest_model.items())}})
+        rec["status"] = "ok"
+        return rec
+    finally:
+        shutil.rmtree(tmp, ignore_errors=True)
+
+
 def _fl(x):
     return (("i" if x["ingest"] else "n") + ("u" if x["ug"] else "-")
             + ("s" if x["se"] else "-"))
 
 
-CHILD = {"c14": _child_c14, "c15": _child_c15}
+CHILD = {"c14": _child_c14, "c15": _child_c15, "c04o": _child_c04o}
 
 
 def run_unit(unit: dict) -> dict:
